@@ -5,6 +5,7 @@ from collections.abc import MutableMapping
 from jinja2 import Environment, Template, meta
 
 from streamflow.core.exception import WorkflowDefinitionException
+from streamflow.core.utils import escape_env_value
 
 
 def _check_template(name: str, source: str) -> None:
@@ -50,7 +51,10 @@ class CommandTemplateMap:
             streamflow_command=command,
             streamflow_environment=(
                 " && ".join(
-                    [f'export {key}="{value}"' for (key, value) in environment.items()]
+                    [
+                        f'export {key}="{escape_env_value(value)}"'
+                        for (key, value) in environment.items()
+                    ]
                 )
                 if environment is not None
                 else ""
